@@ -11,7 +11,7 @@ theorem C02_slot_conservation (base : Nat) (h : History) (hn : ∀ x ∈ h, x.ad
     (hc : ((World.init base).run h).cfgs[i]? = some c) (hp : ((World.init base).run h).pools[i]? = some p)
     (hsz : c.size0 = .fin n) :
     ∃ v, p.sem.value = .fin v ∧ v + heldL p.tasks + grantsL p.sem.waiters = n :=
-  ((World.reachable goodC_invariant base h hn).inv i c p hc hp n hsz).slot
+  (goodFin base h hn i c p n hc hp hsz).slot
 
 /-- a task inside its worker or inside its cancel callback (or not yet begun) still holds its slot: capacity is
 handed back only on the way out, never while the task counts as running or cancelled -/
@@ -20,7 +20,7 @@ theorem C02_slot_held_until_ending (base : Nat) (h : History) (hn : ∀ x ∈ h,
     (hc : ((World.init base).run h).cfgs[i]? = some c) (hp : ((World.init base).run h).pools[i]? = some p)
     (hsz : c.size0 = .fin n) (ht : p.tasks[t]? = some tk)
     (hph : tk.phase = .created ∨ tk.phase = .inWorker ∨ tk.phase = .inCancelCb) : tk.released = false := by
-  have hg := (World.reachable goodC_invariant base h hn).inv i c p hc hp n hsz
+  have hg := goodFin base h hn i c p n hc hp hsz
   apply hg.phase t tk ht
   rcases hph with h | h | h <;> simp [NYR, h]
 
@@ -47,7 +47,7 @@ theorem C02_idle_accounting (base : Nat) (h : History) (hn : ∀ x ∈ h, x.admi
     (hc : ((World.init base).run h).cfgs[i]? = some c) (hp : ((World.init base).run h).pools[i]? = some p)
     (hsz : c.size0 = .fin n) (hl : p.lost = false) :
     ∃ v, p.sem.value = .fin v ∧ v + grantsL p.sem.waiters + p.running.length + p.cancelledR.length = n := by
-  have hg := (World.reachable goodC_invariant base h hn).inv i c p hc hp n hsz
+  have hg := goodFin base h hn i c p n hc hp hsz
   obtain ⟨v, hv, hs⟩ := hg.slot
   have h1 := inflight_le_held p hg.reg
   have h2 := held_le_inflight p hg.reg hl
@@ -61,7 +61,7 @@ theorem C02_registry_vs_slot (base : Nat) (h : History) (hn : ∀ x ∈ h, x.adm
     (∀ t ∈ p.ended, ∃ tk : PTask, p.tasks[t]? = some tk ∧ tk.released = true) ∧
     (∀ t ∈ p.running, ∃ tk : PTask, p.tasks[t]? = some tk ∧ tk.released = false) ∧
     (∀ t ∈ p.cancelledR, ∃ tk : PTask, p.tasks[t]? = some tk ∧ tk.released = false) := by
-  have hg := (World.reachable goodC_invariant base h hn).inv i c p hc hp n hsz
+  have hg := goodFin base h hn i c p n hc hp hsz
   exact ⟨hg.reg.fin, hg.reg.run, fun t ht => by obtain ⟨tk, a, b, _⟩ := hg.reg.can t ht; exact ⟨tk, a, b⟩⟩
 
 end Taskpool
